@@ -28,6 +28,7 @@ func main() {
 		noMutants = flag.Bool("no-mutants", false, "thorough tier without the mutant self-test")
 		verbose   = flag.Bool("v", false, "print every obligation")
 		listP     = flag.Bool("list-properties", false, "print registered properties as JSON")
+		listS     = flag.Bool("list-stale", false, "debug: list stale-read lint hits")
 		listW     = flag.Bool("list-writers", false, "debug: list controller-runtime writer call sites")
 		explain   = flag.String("explain", "", "replay: print the violated obligations recorded in this evidence file, then re-run")
 	)
@@ -95,7 +96,7 @@ func main() {
 			}
 			ids = append(ids, id)
 		}
-	case *dump != "", *listW:
+	case *dump != "", *listW, *listS:
 	default:
 		fmt.Fprintln(os.Stderr, "usage: pkocheck -property <id|all> [-tier quick|thorough]")
 		os.Exit(2)
@@ -145,6 +146,14 @@ func main() {
 	}
 	if *dump != "" {
 		dumpFacts(prog, *dump)
+		return
+	}
+	if *listS {
+		for _, fn := range prog.productFuncs() {
+			for _, su := range prog.staleUses(fn) {
+				fmt.Printf("%s: read %s at %s; refreshed by %s; used at %s: %s\n", shortFuncID(fn), prog.describe(su.Read), prog.IPos(su.Read), prog.IPos(su.Refresh), prog.IPos(su.Use), su.Use.String())
+			}
+		}
 		return
 	}
 	if *listW {
